@@ -93,6 +93,7 @@ type Obligation struct {
 	Bytes   int
 	Expect  string // "unsat" normally; "sat" for covers/canaries
 	Extra   []string // extra get-value terms
+	Hints   []T      // instances of quantified hypotheses at the goal's terms
 }
 
 type VC struct {
@@ -131,6 +132,11 @@ type VC struct {
 	name     string
 	paramOrder []string
 	ghostType map[string]types.Type
+	qhyps    []qhyp
+	goalSk   []T
+	goalIdx  []T
+	pendingHints []T
+	splits   []T // case-split candidates (e.g. append fits in place) for obligations the solvers cannot decide whole
 }
 
 type panicSite struct {
@@ -198,6 +204,8 @@ func (vc *VC) oblige(kind, name string, guard, goal T) *Obligation {
 		return o
 	}
 	o := &Obligation{Name: vc.fnName() + "#" + name, Kind: kind, Goal: f, NFacts: len(vc.facts), Fn: vc.fnName(), Expect: "unsat"}
+	o.Hints = vc.pendingHints
+	vc.pendingHints = nil
 	vc.obls = append(vc.obls, o)
 	return o
 }
